@@ -95,6 +95,19 @@ def run(ctx):
                     [{"t": "master_down"}, burst, {"t": "sleep", "n": 300}, {"t": "master_up"}, login("c9", "u1", "p1"), {"t": "free"}],
                     novalidate=True, expect_unchanged=True, expect_master={"u1": {"set": 2, "pw": "p1", "adm": False, "aux": "orig"}},
                     expect_prop="C12", expect_key_master="remote-upgrade-stops-after-master-outage"))
+    # the same after an outage at transport level (connection cut without an answer), for more attempts than the upgrader has slots
+    scs.append(scen("master-transport-outage-then-upgrade", "master",
+                    [{"t": "master_down", "n": 2}, burst, {"t": "sleep", "n": 300}, {"t": "master_up"}, login("c9", "u1", "p1"), {"t": "free"}],
+                    novalidate=True, expect_unchanged=True, expect_master={"u1": {"set": 2, "pw": "p1", "adm": False, "aux": "orig"}},
+                    expect_prop="C12", expect_key_master="remote-upgrade-stops-after-master-outage"))
+    # the default changes by a reload: `upgradeable` and the rewrite follow the new default at once
+    for sd in (1, 2):
+        scs.append(scen("reload-then-login-%d" % sd, "local",
+                        [login("c0", "u3", "p3"), {"t": "sleep", "n": 30}, {"t": "hup", "n": 1}, login("c1", "u3", "p3"), {"t": "sleep", "n": 60},
+                         login("c2", "u1", "p1"), {"t": "sleep", "n": 30}, {"t": "hup", "n": 3}, login("c3", "u2", "p2"), login("c4", "u1", "p1"), {"t": "free"}],
+                        seed=sd, expect_idle={"u3": {"set": 1, "pw": "p3", "adm": False, "aux": "orig"}, "u1": {"set": 3, "pw": "p1", "adm": False, "aux": "orig"},
+                                              "u2": {"set": 3, "pw": "p2", "adm": True, "aux": "orig"}},
+                        expect_prop="C12", expect_key="upgrade-does-not-follow-reloaded-default"))
     # gated: the stale-upgrade counterexample and simulated behaviours
     if cex:
         scs.append(af.scenario_from_cex(cex, "cex-stale-upgrade", "local"))
